@@ -38,24 +38,75 @@ fn sdi(data: &[u8]) -> Vec<u8> {
     framing::tpkt(&framing::x224_dt(&mcs::send_data_indication(1002, 1003, data)))
 }
 
+/// the slow-path letters that may be packed two to a frame (BFS only): the ten slow-path letters of EVENTS and a
+/// Set Error Info carrying a non-zero code
+pub const INNER: [usize; 11] = [0, 1, 2, 3, 4, 5, 6, 7, 8, 9, 12];
+
+/// number of events explored per state by the BFS: the 12 letters, letter 12 (set-error-info with a non-zero code)
+/// and every ordered pair of INNER letters packed into ONE frame
+pub fn n_bfs_events() -> usize {
+    13 + INNER.len() * INNER.len()
+}
+
+/// letters carried by an event: one for 0..=12, two for a packed frame
+pub fn decompose(ev: usize) -> Vec<usize> {
+    if ev <= 12 {
+        vec![ev]
+    } else {
+        let k = ev - 13;
+        vec![INNER[k / INNER.len()], INNER[k % INNER.len()]]
+    }
+}
+
+pub fn event_name(ev: usize) -> String {
+    match ev {
+        0..=11 => EVENTS[ev].to_string(),
+        12 => "set-error-info(non-zero)".to_string(),
+        _ => {
+            let d = decompose(ev);
+            format!("one frame [{} + {}]", event_name(d[0]), event_name(d[1]))
+        }
+    }
+}
+
+fn event_inner(ev: usize, sid: u32) -> Vec<u8> {
+    match ev {
+        0 => share::demand_active(SHARE_A, 1002, b"RDP\0", &share::minimal_caps(), 0),
+        1 => share::demand_active(SHARE_B, 1002, b"RDP\0", &share::minimal_caps(), 0),
+        2 => share::synchronize(sid, 1002, USER_ID),
+        3 => share::control(sid, 1002, share::CTRLACTION_COOPERATE, 0, 0),
+        4 => share::control(sid, 1002, share::CTRLACTION_GRANTED_CONTROL, USER_ID, 0x03EA),
+        5 => share::control(sid, 1002, share::CTRLACTION_DETACH, 0, 0),
+        6 => share::font_map(sid, 1002),
+        7 => share::set_error_info(sid, 1002, 0),
+        8 => share::save_session_info(sid, 1002),
+        9 => share::deactivate_all(sid, 1002),
+        _ => share::set_error_info(sid, 1002, 5),
+    }
+}
+
 pub fn event_frame(ev: usize, current_share: u32) -> Vec<u8> {
     let sid = if current_share == 0 { SHARE_A } else { current_share };
     match ev {
-        0 => sdi(&share::demand_active(SHARE_A, 1002, b"RDP\0", &share::minimal_caps(), 0)),
-        1 => sdi(&share::demand_active(SHARE_B, 1002, b"RDP\0", &share::minimal_caps(), 0)),
-        2 => sdi(&share::synchronize(sid, 1002, USER_ID)),
-        3 => sdi(&share::control(sid, 1002, share::CTRLACTION_COOPERATE, 0, 0)),
-        4 => sdi(&share::control(sid, 1002, share::CTRLACTION_GRANTED_CONTROL, USER_ID, 0x03EA)),
-        5 => sdi(&share::control(sid, 1002, share::CTRLACTION_DETACH, 0, 0)),
-        6 => sdi(&share::font_map(sid, 1002)),
-        7 => sdi(&share::set_error_info(sid, 1002, 0)),
-        8 => sdi(&share::save_session_info(sid, 1002)),
-        9 => sdi(&share::deactivate_all(sid, 1002)),
         10 => {
             let r = Rect { left: 1, top: 2, right: 2, bottom: 2, width: 2, height: 1, bpp: 16, flags: 0, data: vec![1, 2, 3, 4] };
             framing::fastpath(0, &fastpath::updates_payload(&[Update::Bitmap(vec![r])]), false)
         }
-        _ => framing::fastpath(0, &fastpath::updates_payload(&[fastpath::other_update(fastpath::UPD_SYNCHRONIZE), fastpath::other_update(fastpath::UPD_PTR_POSITION)]), false),
+        11 => framing::fastpath(0, &fastpath::updates_payload(&[fastpath::other_update(fastpath::UPD_SYNCHRONIZE), fastpath::other_update(fastpath::UPD_PTR_POSITION)]), false),
+        _ => {
+            // the second PDU of a packed frame that follows a demand-active carries the new share id
+            let mut sid = sid;
+            let mut body = vec![];
+            for l in decompose(ev) {
+                body.extend(event_inner(l, sid));
+                if l == 0 {
+                    sid = SHARE_A;
+                } else if l == 1 {
+                    sid = SHARE_B;
+                }
+            }
+            sdi(&body)
+        }
     }
 }
 
@@ -182,31 +233,62 @@ pub fn step(l: &mut Live, ev: usize) -> Result<Key, (String, String)> {
     let post = l.client.verif_global().verif_state_id();
     let share_now = l.client.verif_global().verif_share_id();
     let r = l.ref_state;
-    let name = EVENTS[ev];
-    // (a) emissions
-    if r == 0 && ev <= 1 {
-        let x = if ev == 0 { SHARE_A } else { SHARE_B };
-        let want = vec![
+    let name = event_name(ev);
+    // (a)+(b) emissions and state: every outcome the reference automaton allows for this frame
+    let finalization = |x: u32| {
+        vec![
             ClientPdu::ConfirmActive { share: x, source: USER_ID },
             ClientPdu::Synchronize { share: x },
             ClientPdu::Control { share: x, action: share::CTRLACTION_COOPERATE },
             ClientPdu::Control { share: x, action: share::CTRLACTION_REQUEST_CONTROL },
             ClientPdu::FontList { share: x },
-        ];
-        if pdus != want {
-            return Err(("wrong-finalization-sequence".into(), format!("after {} in awaiting state the client sent {:?}, expected {:?}", name, pdus, want)));
+        ]
+    };
+    let ref_one = |st: u8, sh: u32, e: usize| -> Vec<(u8, u32, Vec<ClientPdu>)> {
+        if st == 0 && e <= 1 {
+            let x = if e == 0 { SHARE_A } else { SHARE_B };
+            return vec![(1, x, finalization(x))];
         }
-        if res.is_err() {
-            return Err(("demand-active-answered-with-error".into(), format!("{:?}", res.err())));
+        // a Set Error Info is a Set Error Info whatever its code
+        let e = if e == 12 { 7 } else { e };
+        permitted(st, e).into_iter().map(|s2| (s2, sh, vec![])).collect()
+    };
+    let letters = decompose(ev);
+    let mut outs: Vec<(u8, u32, Vec<ClientPdu>)> = vec![(r, l.ref_share, vec![])];
+    for (i, e) in letters.iter().enumerate() {
+        let mut next = vec![];
+        for (st, sh, em) in &outs {
+            for (s2, sh2, em2) in ref_one(*st, *sh, *e) {
+                let mut em_all = em.clone();
+                em_all.extend(em2);
+                next.push((s2, sh2, em_all));
+            }
         }
-        l.ref_share = x;
-    } else if !pdus.is_empty() {
-        return Err(("unexpected-emission".into(), format!("event {} in reference state {} made the client send {:?}", name, r, pdus)));
+        if i >= 1 {
+            // the statement quantifies over sequences of server messages, not over their packing into frames. Only
+            // the active state has a reader that walks through every PDU of a frame, so only there must every PDU
+            // count (a deactivate-all must not get lost behind another PDU). Once the frame has taken the client
+            // out of the active state — or if the frame did not start in it — ignoring the rest of the frame is as good as
+            // handling it.
+            next.extend(outs.iter().filter(|o| r != 5 || o.0 != 5).cloned());
+        }
+        outs = next;
     }
-    // (b) state advance only on the expected PDU
-    let perm = permitted(r, ev);
-    if !perm.contains(&post) {
-        return Err(("illegal-state-transition".into(), format!("event {} in state {} moved the client to state {} (permitted {:?}, read result ok={})", name, r, post, perm, res.is_ok())));
+    match outs.iter().find(|(s2, _, em)| *s2 == post && *em == pdus) {
+        Some((_, sh, _)) => l.ref_share = *sh,
+        None => {
+            let expects_emission = outs.iter().any(|o| !o.2.is_empty());
+            if !outs.iter().any(|o| o.0 == post) {
+                return Err(("illegal-state-transition".into(), format!("event {} in state {} moved the client to state {} (permitted {:?}, read result ok={})", name, r, post, outs.iter().map(|o| o.0).collect::<Vec<_>>(), res.is_ok())));
+            }
+            if expects_emission {
+                return Err(("wrong-finalization-sequence".into(), format!("after {} in state {} the client sent {:?}, expected one of {:?}", name, r, pdus, outs.iter().map(|o| &o.2).collect::<Vec<_>>())));
+            }
+            return Err(("unexpected-emission".into(), format!("event {} in reference state {} made the client send {:?}", name, r, pdus)));
+        }
+    }
+    if r == 0 && ev <= 1 && res.is_err() {
+        return Err(("demand-active-answered-with-error".into(), format!("{:?}", res.err())));
     }
     // (e) bitmap delivery only inside the window
     let want_cb = if r == 5 && ev == 10 { 1 } else { 0 };
@@ -264,7 +346,7 @@ fn run_history_inner(h: &[u8]) -> Result<Vec<Key>, (String, String)> {
     for (i, ev) in h.iter().enumerate() {
         match step(&mut l, *ev as usize) {
             Ok(k) => keys.push(k),
-            Err((sig, d)) => return Err((sig, format!("step {} of history {:?}: {}", i, h.iter().map(|e| EVENTS[*e as usize]).collect::<Vec<_>>(), d))),
+            Err((sig, d)) => return Err((sig, format!("step {} of history {:?}: {}", i, h.iter().map(|e| event_name(*e as usize)).collect::<Vec<_>>(), d))),
         }
     }
     Ok(keys)
@@ -304,7 +386,7 @@ impl Model for FsmModel {
     }
     fn actions(&self, s: &St, actions: &mut Vec<u8>) {
         if s.viol.is_none() {
-            for e in 0..EVENTS.len() as u8 {
+            for e in 0..n_bfs_events() as u8 {
                 actions.push(e);
             }
         }
@@ -355,7 +437,7 @@ pub fn bfs() -> BfsResult {
     let mut transitions = 0u64;
     let mut max_depth = 0;
     while let Some((h, _k)) = frontier.pop() {
-        for e in 0..EVENTS.len() as u8 {
+        for e in 0..n_bfs_events() as u8 {
             let mut h2 = h.clone();
             h2.push(e);
             transitions += 1;
